@@ -196,8 +196,8 @@ check(
 )
 check(
     "C20",
-    "fork-tree history exploration: one os.fork() per history node (type registration cannot be undone in-process); every history of register/use events up to length 3 (quick) / 5 (thorough) per algorithm entry and all two-class interleavings of 4 pairs; differential oracle against the canonical registrations-first history",
-    "Bounded exhaustive fork-tree exploration of registration/use histories. For each of 78 algorithm entries (40 discovered MultiFunction/Transformer/DAGTraverser subclasses, 7 synthetic downstream classes incl. lazily defined and same-named ones, 31 function entry points), every history over {register new operator, register subclass of Sin, register new terminal, use on an old expression, use on each new type} up to length 3 (quick) or 5 (thorough) is executed on the real code in its own forked process image; all two-class interleavings of 4 representative pairs up to length 3 / 4. Every use outcome (normalised result repr or exception type) must equal the outcome of the same event in the canonical history in which the registrations come first, no dispatch site may raise IndexError/AttributeError/KeyError on a typecode-indexed table, and for independent pairs the outcome must equal that of the projection onto one class.",
+    "fork-tree history exploration: one os.fork() per history node (type registration cannot be undone in-process); every history of register/use events up to length 3 (quick) / 4 (thorough) per algorithm entry and all two-class interleavings of 6 pairs; differential oracle against the canonical registrations-first history",
+    "Bounded exhaustive fork-tree exploration of registration/use histories. For each of 80 algorithm entries (40 discovered MultiFunction/Transformer/DAGTraverser subclasses, 9 synthetic downstream classes incl. lazily defined, same-named and derived-from-used ones, 31 function entry points), every history over {register new operator, register subclass of Sin, register new terminal, use on an old expression, use on each new type} up to length 3 (quick) or 4 (thorough) is executed on the real code in its own forked process image; all two-class interleavings of 6 representative pairs (incl. base class + subclass defined later) up to length 3 / 4. Every use outcome (normalised result repr or exception type) must equal the outcome of the same event in the canonical history in which the registrations come first, no dispatch site may raise IndexError/AttributeError/KeyError on a typecode-indexed table, and for independent pairs the outcome must equal that of the projection onto one class.",
     "Fresh algorithm instances per use (instances kept alive across a registration are outside the alphabet); three synthetic late types; results compared by normalised repr; the product over algorithm classes rests on a factoring argument (caches keyed by class object) that is itself tested on the pairs.",
     "DESIGN.md 3 C20",
 )
